@@ -602,6 +602,19 @@ func runVecHistory(r *rand.Rand, p vecParams, o vecHistOpts, t *Trace) *Case {
 				k3 := []int{0, 1, len(resident) + 1, 3}[r.Intn(4)]
 				var res3 []comet.VectorResult
 				var e3 error
+				d3 := docids
+				if r.Intn(2) == 0 {
+					// ... and another (or no) id restriction: nothing of the first one may linger
+					d3 = nil
+					for i := 0; i < r.Intn(4); i++ {
+						if len(resident) > 0 && r.Intn(5) != 0 {
+							d3 = append(d3, resident[r.Intn(len(resident))].id)
+						} else {
+							d3 = append(d3, uint32(900+r.Intn(3)))
+						}
+					}
+					s = s.WithDocumentIDs(d3...)
+				}
 				pan3 := catchPanic(func() { res3, e3 = s.WithNProbes(np3).WithK(k3).Execute() })
 				out3 := make([][2]uint64, len(res3))
 				for i, x := range res3 {
@@ -612,7 +625,7 @@ func runVecHistory(r *rand.Rand, p vecParams, o vecHistOpts, t *Trace) *Case {
 					code3 = 12
 				}
 				ops = append(ops, func(c *Case) {
-					c.N(4).Vecs(qs).U32s(nodes).U32s(docids).N(k3).F32(thr).N(aggz).N(cutoff).N(np3)
+					c.N(4).Vecs(qs).U32s(nodes).U32s(d3).N(k3).F32(thr).N(aggz).N(cutoff).N(np3)
 					c.N(code3).Pairs(out3)
 				})
 				t.Stat("vec.search_builder_reused")
